@@ -61,6 +61,13 @@ Section Vec.
   (* `for P in (P1, P2)`: the k-th element of the tuple *)
   Definition vsel (k : Z) (l : list (vec T)) : vec T :=
     nth (Z.to_nat k) l (oofZ O 0, oofZ O 0, oofZ O 0).
+  (* `M.vertices[k] = p` after the loops *)
+  Fixpoint vset_nat (k : nat) (p : vec T) (l : list (vec T)) : list (vec T) :=
+    match l with
+    | [] => []
+    | x :: t => match k with 0%nat => p :: t | S k' => x :: vset_nat k' p t end
+    end.
+  Definition vset (k : Z) (p : vec T) (l : list (vec T)) : list (vec T) := vset_nat (Z.to_nat k) p l.
   (* np.linspace(a, b, n)[i] = a + i * ((b - a) / (n - 1)) *)
   Definition linspace (a b : T) (n i : Z) : T :=
     oadd O a (omul O (oofZ O i) (odiv O (osub O b a) (oofZ O (n - 1)))).
